@@ -19,7 +19,7 @@ AXL = T.axioms('shape', 'als_shape', 'lsq')
 #
 # Postconditions (from C07: every core update is the regularised, optionally weighted least-squares minimiser):
 #   lamb given:  the solver receives exactly  (A^T W A + lamb I,  A^T W y')  with W = diag(w) (I without weights) and
-#                y' = y - A u for an update (u = update_sol), y otherwise; hence, for lamb > 0 (and w >= 0), the returned x satisfies
+#                y' = y - A u for an update (u = update_sol), y otherwise; hence, for lamb > 0 (and, with weights, w >= 0 entrywise), the returned x satisfies
 #                the regularised normal equations (A^T W A + lamb I) x = A^T W y'   (scipy is trusted for: a square invertible
 #                system is solved exactly; A^T W A + lamb I is invertible: axioms 'lsq', spot-checked against scipy itself);
 #   lamb None:   the solver receives (A, y') - with weights (diag(w) A, w * y'): note that the weights then enter the objective
@@ -48,7 +48,7 @@ def _lstsq_unit(U, with_w, with_u):
     st.vars.update(A=A, y=y, lamb=lamb, w=w, overwrite_a=ow, update_sol=u)
     pre = [rows(At) >= 1, cols(At) >= 1, rows(yt) == rows(At), cols(yt) == 1]
     if with_w:
-        pre += [rows(wt) == rows(At), cols(wt) == 1, X.nonneg(wt)]
+        pre += [rows(wt) == rows(At), cols(wt) == 1]
     if with_u:
         pre += [rows(ut) == cols(At), cols(ut) == 1]
     res = U.run(ex, st, pre=pre)
@@ -86,10 +86,11 @@ def _lstsq_unit(U, with_w, with_u):
             U.post('solver-gets-the-regularised-normal-matrix', p, Mv.t == Mx, axioms=AXL, mode='ematch')
             U.post('solver-gets-the-projected-right-hand-side', p, bv.t == bx, axioms=AXL, mode='ematch')
             U.post('solution-satisfies-the-regularised-normal-equations', p,
-                   z3.Implies(lamb.val > 0, X.meq(mm(Mx, xv.t), bx)), axioms=AXL, mode='ematch')
+                   z3.Implies(z3.And(lamb.val > 0, X.nonneg(wt)) if with_w else lamb.val > 0, X.meq(mm(Mx, xv.t), bx)), axioms=AXL, mode='ematch')
             U.post('only-temporaries-are-overwritten', p, z3.BoolVal(not a_is_param and not b_is_param))
             # vacuity guards: the unregularised equations / the unweighted right-hand side must not be derivable
-            U.canary('canary-unregularised-equations', p, z3.Implies(lamb.val > 0, X.meq(mm(mm(tr(At), At), xv.t), bx)), axioms=AXL)
+            U.canary('canary-unregularised-equations', p,
+                     z3.Implies(z3.And(lamb.val > 0, X.nonneg(wt)), X.meq(mm(mm(tr(At), At), xv.t), bx)), axioms=AXL)
             if with_w:
                 U.canary('canary-weights-ignored', p, bv.t == mm(tr(At), y1), axioms=AXL)
         else:
@@ -119,4 +120,189 @@ for _w in (False, True):
             @unit(f'als._lstsq.{"w" if w else "-"}{"u" if u else "-"}', props=('C07',))
             def u_(U):
                 _lstsq_unit(U, w, u)
+        _mk()
+
+
+# ----------------------------------------------------------------------------------------------
+# call-site contract of als._lstsq(A, y, lamb=, w=, update_sol=) - exactly what the units als._lstsq.* prove
+
+def lstsq_terms(At, yt, lamb, wt, ut):
+    """(x, facts): the solution as a term and the proved facts about it.  lamb: VOpt / NONE / number; wt, ut: Mat terms or None."""
+    y1 = madd(yt, smul(-1, mm(At, ut))) if ut is not None else yt
+    lo = S.as_opt_num(lamb)
+    lv = M.to_real(lo.val)
+    Mr = X.ridge(At, lv, wt)
+    br = mm(tr(At), X.dscale(wt, y1)) if wt is not None else mm(tr(At), y1)
+    M0 = X.dscale(wt, At) if wt is not None else At
+    b0 = X.had(y1, wt) if wt is not None else y1
+    x = z3.If(lo.isnone, X.lsq(M0, b0), X.lsq(Mr, br))
+    good = z3.And(lv > 0, X.nonneg(wt)) if wt is not None else lv > 0
+    facts = [rows(x) == cols(At), cols(x) == 1,
+             z3.Implies(z3.And(z3.Not(lo.isnone), good), X.meq(mm(Mr, x), br)),
+             z3.Implies(lo.isnone, X.meq(mm(tr(M0), mm(M0, x)), mm(tr(M0), b0)))]
+    return x, facts, dict(ridge=Mr, rhs=br, M0=M0, b0=b0, y1=y1, good=good, isnone=lo.isnone)
+
+
+def call_lstsq(ex, st, args, kwargs, node):
+    if len(args) != 2 or not set(kwargs) <= {'lamb', 'w', 'update_sol'}:
+        raise M.Unsupported('_lstsq: only the call (A, y, lamb=, w=, update_sol=) has a call-site contract')
+    A, y = st.deref(args[0]), st.deref(args[1])
+    lamb, w, u = kwargs.get('lamb', 1e-2), st.deref(kwargs.get('w', NONE)), st.deref(kwargs.get('update_sol', NONE))
+    if not (X.is_mat(A) and X.is_cvec(y) and (w is NONE or X.is_cvec(w)) and (u is NONE or X.is_cvec(u))):
+        raise M.Unsupported('_lstsq: arguments without a denotation (matrix, 1-D arrays)')
+    ex.oblige(st, 'call-pre', '_lstsq: non-empty design matrix with one row per entry of y',
+              z3.And(Z(A.shape[0]) >= 1, Z(A.shape[1]) >= 1, Z(y.shape[0]) == Z(A.shape[0])), node)
+    if w is not NONE:
+        ex.oblige(st, 'call-pre', '_lstsq: one weight per row', Z(w.shape[0]) == Z(A.shape[0]), node)
+    if u is not NONE:
+        ex.oblige(st, 'call-pre', '_lstsq: update_sol has one entry per column', Z(u.shape[0]) == Z(A.shape[1]), node)
+    x, facts, parts = lstsq_terms(A.t, y.t, lamb, None if w is NONE else w.t, None if u is NONE else u.t)
+    xs = ex.fresh('xsol', T.Mat)
+    st.assume(xs == x, *facts)
+    xv = X.cvec(xs, A.shape[1])
+    st.ghost['lstsq_calls'] = st.ghost.get('lstsq_calls', []) + [dict(A=A, y=y, lamb=lamb, w=w, u=u, x=xv, parts=parts)]
+    return VTuple([xv, VOpaque('residues'), VOpaque('rank'), VOpaque('s')])
+
+
+# ----------------------------------------------------------------------------------------------
+# als._optimize_core - value tier (beyond `als._optimize_core.slices`): the least-squares problem of each slice and the layout of
+# its solution.
+#
+# For every mode index k that is carried by at least one sample (idx = the positions of these samples, increasing):
+#   * the design matrix handed to _lstsq is krrows(Yl[idx, :], Yr[:, idx]^T): row s is kron(Yl[idx_s, :], Yr[:, idx_s]) in C order,
+#     the right-hand side is y_trn[idx], the weights are w[idx] (or None), lamb is passed through, update_sol is vecC(Q[:, k, :]);
+#   * the slice is written back in the SAME C order: vecC(Q'[:, k, :]) = x (plain) / vecC(Q[:, k, :]) + x (update), so that the
+#     solver's model values A x are the model values diag(Yl[idx] Q'[:, k, :] Yr[:, idx]) of the samples (axiom 'krvec');
+#   * hence Q'[:, k, :] satisfies the regularised normal equations of its slice (lamb > 0; weights >= 0) - composition with the
+#     contract of _lstsq;
+#   * no other slice changes in this step; slices whose index no sample carries are never changed; the result is a copy.
+# The interfaces are general matrices: the first core (Yl with one column) and the last core (Yr with one row) are instances
+# (covers).  NOT covered: the values of the interface matrices themselves (als main loop), floating point.
+
+AXO = T.axioms('shape', 'mulI', 'als_shape', 'lsq', 'krvec', 'cputsl')
+
+
+def _optimize_core_unit(U, with_w, with_u):
+    fn = U.func('als', '_optimize_core')
+    st = U.state()
+    Qt, Ylt, Yrt, yt, wt = z3.Const('Q', T.Core), z3.Const('Yl', T.Mat), z3.Const('Yr', T.Mat), z3.Const('y_trn', T.Mat), z3.Const('w', T.Mat)
+    r1, n, r2 = T.d0(Qt), T.d1(Qt), T.d2(Qt)
+    ms = z3.Int('ms')
+    iarr = z3.Const('i', X.IA)
+    Q = M.mk_core(Qt)
+    ivec = VArr((ms,), iarr, 'ivec', 'i')
+    Yl, Yr = VArr((ms, r1), Ylt, 'mat'), VArr((r2, ms), Yrt, 'mat')
+    y = X.cvec(yt, ms)
+    w = X.cvec(wt, ms) if with_w else NONE
+    lamb = S.opt_real('lamb')
+    s_, t_ = z3.Int('s!oc'), z3.Int('t!oc')
+
+    def nosample(t):
+        return z3.ForAll([s_], z3.Implies(z3.And(0 <= s_, s_ < ms), iarr[s_] != t), patterns=[iarr[s_]])
+
+    def cur(s):
+        Qc = s.vars['Q']
+        if not (isinstance(Qc, VArr) and Qc.ndim == 3 and Qc.tag == 'core' and Qc.t is not None):
+            raise M.ContractMismatch('_optimize_core: Q is no longer a core with a denotation')
+        return Qc
+
+    def inv(ex, s, j):
+        Qc = cur(s)
+        return [('core-shape-kept', z3.And(T.d0(Qc.t) == r1, T.d1(Qc.t) == n, T.d2(Qc.t) == r2,
+                                           Z(Qc.shape[0]) == r1, Z(Qc.shape[1]) == n, Z(Qc.shape[2]) == r2)),
+                ('slices-not-yet-visited-are-untouched',
+                 z3.ForAll([t_], z3.Implies(z3.And(j <= t_, t_ < n), T.sl(Qc.t, t_) == T.sl(Qt, t_)), patterns=[T.sl(Qc.t, t_)])),
+                ('visited-slices-without-a-sample-are-untouched',
+                 z3.ForAll([t_], z3.Implies(z3.And(0 <= t_, t_ < j, nosample(t_)), T.sl(Qc.t, t_) == T.sl(Qt, t_)), patterns=[T.sl(Qc.t, t_)]))]
+
+    def havoc_hook(ex, h, pre, j):
+        h.vars['Q'].origin = getattr(pre.vars['Q'], 'origin', None)
+
+    def body_end(ex, s, o, j):
+        k = j
+        calls, stores = s.ghost.get('lstsq_calls', []), s.ghost.get('slice_stores', [])
+        if o.kind == 'continue' or (not calls and not stores):
+            return                               # (that a slice is skipped only without samples: unit als._optimize_core.slices)
+        if o.kind != 'normal':
+            return
+        ob = lambda lbl, g: ex.oblige(s, 'post', lbl, g, None, assume=False)
+        ob('one-solve-and-one-slice-write-per-visited-slice', z3.BoolVal(len(calls) == 1 and len(stores) == 1))
+        if len(calls) != 1 or len(stores) != 1:
+            return
+        c, w_ = calls[0], stores[0]
+        idx = s.vars.get('idx')
+        if not (isinstance(idx, VArr) and idx.tag == 'ivec' and idx.t is not None):
+            raise M.ContractMismatch('_optimize_core: idx is no longer the integer vector of sample positions')
+        L = Z(idx.shape[0])
+        P, Rm = X.rowg(Ylt, idx.t, L), tr(X.colg(Yrt, idx.t, L))
+        Ad = X.krrows(P, Rm)
+        Qold, Qnew = w_['old'], cur(s)
+        Xold, Xnew = T.sl(Qold.t, k), T.sl(Qnew.t, k)
+        xs = c['x'].t
+        ob('idx-are-the-sample-positions-of-slice-k',
+           z3.ForAll([s_], z3.Implies(z3.And(0 <= s_, s_ < L), z3.And(0 <= idx.t[s_], idx.t[s_] < ms, iarr[idx.t[s_]] == k)),
+                     patterns=[idx.t[s_]]))
+        # (proved here and then available to the invariant: names the term idx[0], which e-matching needs to refute `no sample`)
+        ex.oblige(s, 'post', 'a-written-slice-has-a-sample', z3.And(L > 0, 0 <= idx.t[0], idx.t[0] < ms, iarr[idx.t[0]] == k), None, assume=True)
+        ob('design-matrix-rows-are-kron-of-left-and-right-interface-rows-in-C-order', c['A'].t == Ad)
+        ob('right-hand-side-are-the-values-of-the-samples-of-the-slice', c['y'].t == X.rowg(yt, idx.t, L))
+        ob('weights-are-those-of-the-samples-of-the-slice',
+           (c['w'].t == X.rowg(wt, idx.t, L)) if (with_w and c['w'] is not NONE) else z3.BoolVal((c['w'] is NONE) == (not with_w)))
+        ob('regularisation-is-passed-through', z3.BoolVal(c['lamb'] is lamb))
+        ob('the-written-slice-is-slice-k', w_['j'] == k)
+        ob('arrays-handed-to-_lstsq-are-temporaries', z3.BoolVal(all(c['A'] is not v and c['y'] is not v for v in (Yl, Yr, y))))
+        if with_u:
+            ob('update_sol-is-the-current-slice-flattened-in-C-order', (c['u'].t == X.vecC(Xold)) if c['u'] is not NONE else False)
+            ob('slice-k-is-the-old-slice-plus-the-solution-folded-in-the-same-C-order', X.vecC(Xnew) == madd(X.vecC(Xold), xs))
+            wk = X.rowg(wt, idx.t, L) if with_w else None
+            good = z3.And(z3.Not(lamb.isnone), lamb.val > 0, X.nonneg(wt)) if with_w else z3.And(z3.Not(lamb.isnone), lamb.val > 0)
+            resid = madd(X.rowg(yt, idx.t, L), smul(-1, mm(Ad, X.vecC(Xold))))
+            ob('the-increment-satisfies-the-regularised-normal-equations-of-the-residual-of-its-samples',
+               z3.Implies(good, X.meq(mm(X.ridge(Ad, lamb.val, wk), xs), mm(tr(Ad), X.dscale(wk, resid) if with_w else resid))))
+        else:
+            ob('no-update_sol-without-update', z3.BoolVal(c['u'] is NONE))
+            ob('slice-k-is-the-solution-folded-in-the-same-C-order', X.vecC(Xnew) == xs)
+            ob('solver-model-values-are-the-tensor-model-values-at-the-samples', mm(c['A'].t, xs) == X.dg(mm(mm(P, Xnew), tr(Rm))))
+            wk = X.rowg(wt, idx.t, L) if with_w else None
+            good = z3.And(z3.Not(lamb.isnone), lamb.val > 0, X.nonneg(wt)) if with_w else z3.And(z3.Not(lamb.isnone), lamb.val > 0)
+            rhs = mm(tr(Ad), X.dscale(wk, X.rowg(yt, idx.t, L))) if with_w else mm(tr(Ad), X.rowg(yt, idx.t, L))
+            ob('slice-k-satisfies-the-regularised-normal-equations-of-its-samples',
+               z3.Implies(good, X.meq(mm(X.ridge(Ad, lamb.val, wk), X.vecC(Xnew)), rhs)))
+        ob('no-other-slice-changes-in-this-step',
+           z3.ForAll([t_], z3.Implies(t_ != k, T.sl(Qnew.t, t_) == T.sl(Qold.t, t_)), patterns=[T.sl(Qnew.t, t_)]))
+
+    ex = U.executor(fn, loops={0: {'inv': inv, 'body_end': body_end, 'havoc_hook': havoc_hook}}, callees={'als._lstsq': call_lstsq}, axioms=AXO)
+    ex.als = True
+    ex.mode = 'ematch'
+    st.vars.update(Q=Q, i=ivec, y_trn=y, Yl=Yl, Yr=Yr, lamb=lamb, w=w, update_sol=True if with_u else NONE)
+    pre = [r1 >= 1, n >= 1, r2 >= 1, ms >= 0, rows(Ylt) == ms, cols(Ylt) == r1, rows(Yrt) == r2, cols(Yrt) == ms, rows(yt) == ms, cols(yt) == 1]
+    if with_w:
+        pre += [rows(wt) == ms, cols(wt) == 1]
+    with X.own_slice_writes():
+        res = U.run(ex, st, pre=pre)
+    U.cover('precondition-satisfiable', U.pre, axioms=AXO)
+    U.cover('first-core-reachable-left-interface-with-one-column', U.pre + [r1 == 1, ms >= 1], axioms=AXO)
+    U.cover('last-core-reachable-right-interface-with-one-row', U.pre + [r2 == 1, ms >= 1], axioms=AXO)
+    for p, o in res:
+        if o.kind != 'return':
+            U.post('no-exception', p, False, axioms=AXO)
+            continue
+        Qr = p.deref(o.value)
+        ok = isinstance(Qr, VArr) and Qr.ndim == 3 and Qr.tag == 'core' and Qr.t is not None
+        U.post('result-has-the-shape-of-the-core', p, z3.And(T.d0(Qr.t) == r1, T.d1(Qr.t) == n, T.d2(Qr.t) == r2) if ok else False,
+               axioms=AXO, mode='ematch')
+        U.post('slices-without-a-sample-are-unchanged', p,
+               z3.ForAll([t_], z3.Implies(z3.And(0 <= t_, t_ < n, nosample(t_)), T.sl(Qr.t, t_) == T.sl(Qt, t_)), patterns=[T.sl(Qr.t, t_)])
+               if ok else False, axioms=AXO, mode='ematch')
+        org = getattr(Qr, 'origin', None)
+        U.post('works-on-a-copy-of-the-core', p, z3.BoolVal(org is not None and org is not Q and getattr(org, 'copy_of', None) is Q))
+        U.canary('canary-every-slice-unchanged', p, z3.ForAll([t_], T.sl(Qr.t, t_) == T.sl(Qt, t_)) if ok else False, axioms=AXO)
+
+
+for _w in (False, True):
+    for _u in (False, True):
+        def _mk(w=_w, u=_u):
+            @unit(f'als._optimize_core.values.{"w" if w else "-"}{"u" if u else "-"}', props=('C07',))
+            def u_(U):
+                _optimize_core_unit(U, w, u)
         _mk()
